@@ -11,7 +11,7 @@ import (
 func C17_read_results() {
 	server := vChoose("side", 2) == 0
 	key := [4]byte{vU8("k0"), vU8("k1"), vU8("k2"), vU8("k3")}
-	switch vChoose("what", 3) {
+	switch vChoose("what", 4) {
 	case 0: // ClosedError.Reason from ControlHandler
 		reason := vBytes("reason", []int{3, 70, 123}[vChoose("rlen", 3)])
 		for _, c := range reason {
@@ -44,6 +44,28 @@ func C17_read_results() {
 			return
 		}
 		vAssert(vAnd(vEqBytes(ms[0].Payload, q), vEqBytes(ms[1].Payload, p)), "alias.messages_survive_pool_reuse")
+	case 3: // two consecutive ReadMessage calls appending to the same slice: the first payload is
+		// not disturbed by reading the second message (nor by the pools being recycled)
+		p1 := vBytes("p1", []int{2, 130}[vChoose("p1len", 2)])
+		p2 := vBytes("p2", []int{3, 131}[vChoose("p2len", 2)])
+		wire := vEncode(vFrame{fin: true, op: 2, masked: server, key: key, payload: p1})
+		wire = append(wire, vEncode(vFrame{fin: false, op: 2, masked: server, key: key, payload: p2[:1]})...)
+		wire = append(wire, vEncode(vFrame{fin: true, op: 0, masked: server, key: key, payload: p2[1:]})...)
+		src := vNewSrc(wire, 0, "chunk")
+		ms, err := ReadMessage(&src, vSide(server), nil)
+		vAssert(vAnd(err == nil, len(ms) == 1), "alias.first_message_ok")
+		if err != nil || len(ms) != 1 {
+			return
+		}
+		first := ms[0].Payload
+		ms, err = ReadMessage(&src, vSide(server), ms)
+		vPoisonPools()
+		vAssert(vAnd(err == nil, len(ms) == 2), "alias.second_message_ok")
+		if err != nil || len(ms) != 2 {
+			return
+		}
+		vAssert(vAnd(vEqBytes(first, p1), vEqBytes(ms[0].Payload, p1)), "alias.first_message_survives_second_read")
+		vAssert(vEqBytes(ms[1].Payload, p2), "alias.second_message_intact")
 	case 2: // readData payload + a ping answered on the way (pooled pong buffer)
 		p := vBytes("p", []int{3, 130}[vChoose("plen", 2)])
 		for _, c := range p {
